@@ -368,6 +368,18 @@ theorem rloopWith_frame (run : St → Res) (hrun : FrameOK run) (runElse : Optio
       rw [l2]
       exact af.2 pl po k
 
+
+theorem rloopQB_frame (run : St → Res) (hrun : FrameOK run) (runElse : Option (St → Res))
+    (helse : ∀ re, runElse = some re → FrameOK re) (ls : RLoopSpec) :
+    FrameOK (rloopQB run runElse ls) := by
+  intro s h
+  unfold rloopQB
+  show (match cmpPath s.c.vars s.c.chQB ls.src with | none => _ | some p => _ : Res).st.w.failAt = none ∧
+    ∀ pl po k, (match cmpPath s.c.vars s.c.chQB ls.src with | none => _ | some p => _ : Res) = _
+  cases cmpPath s.c.vars s.c.chQB ls.src with
+  | none => exact ⟨h, fun _ _ _ => rfl⟩
+  | some p => exact rloopWith_frame run hrun runElse helse { ls with src := p } s h
+
 theorem loopNode_frame (loop : St → Res) (hl : FrameOK loop) : FrameOK (loopNode loop) := by
   intro s h
   have hs0 : ({ s with c := { s.c with brkD := 0 } } : St).w.failAt = none := h
@@ -583,10 +595,10 @@ theorem interp_frame (reg : Registry) : ∀ f : Nat,
         obtain ⟨a, b⟩ := key s h
         exact ⟨by rw [writeNode]; exact a, fun pl po k => by rw [writeNode, writeNode]; exact b pl po k⟩
       | rloop ls child =>
-        have key : FrameOK (loopNode (rloopWith (fun st => writeSeq reg f (loopParts child).1 st)
+        have key : FrameOK (loopNode (rloopQB (fun st => writeSeq reg f (loopParts child).1 st)
             ((loopParts child).2.map (fun e st => elseRun (elseSeq (e.map (fun n st' => writeNode reg f n st'))) (!e.isEmpty) st)) ls)) := by
           apply loopNode_frame
-          apply rloopWith_frame
+          apply rloopQB_frame
           · exact ihS _
           · intro re hre
             cases hp : (loopParts child).2 with
